@@ -48,10 +48,52 @@ type ValueCase struct {
 	Props     []propSpec `json:"props"`   // properties of the reading task
 	Headers   []propSpec `json:"headers"`
 	Conc      bool       `json:"conc"` // clients run concurrently (else one after the other)
+	// a name that already holds a value is written again, usually with a value of another kind: by the client
+	// through the locator before T1 is answered ("set"), as a declared result of T1 ("t1") or of T2 ("t2")
+	Over []overSpec `json:"over,omitempty"`
 	env       *Env
 	defs      any
 	obs       []map[string]any // per instance: what was read
 	errs      []string
+}
+
+type overSpec struct {
+	Name string  `json:"name"`
+	Via  string  `json:"via"`
+	Spec valSpec `json:"spec"`
+}
+
+// specAt returns what name holds at a stage: 0 = right after the start, 1 = when T2 is requested, 2 = at the end.
+func (c *ValueCase) specAt(name string, stage int) (valSpec, bool) {
+	var s valSpec
+	ok := false
+	if name[0] == 'v' {
+		if k := int(name[1] - '0'); k < len(c.Vars) {
+			s, ok = c.Vars[k], true
+		}
+	}
+	if stage >= 1 {
+		if name[0] == 'r' {
+			if k := int(name[1] - '0'); k < len(c.Results) {
+				s, ok = c.Results[k], true
+			}
+		}
+		for _, via := range []string{"set", "t1"} {
+			for _, o := range c.Over {
+				if o.Name == name && o.Via == via {
+					s, ok = o.Spec, true
+				}
+			}
+		}
+	}
+	if stage >= 2 {
+		for _, o := range c.Over {
+			if o.Name == name && o.Via == "t2" {
+				s, ok = o.Spec, true
+			}
+		}
+	}
+	return s, ok
 }
 
 type c16Pair struct {
@@ -235,13 +277,24 @@ func genC16(d *Draw) Case {
 	for i := range c.Results {
 		names = append(names, fmt.Sprintf("r%d", i))
 	}
-	kindOf := func(name string) string {
-		var s valSpec
-		if name[0] == 'v' {
-			s = c.Vars[int(name[1]-'0')]
-		} else {
-			s = c.Results[int(name[1]-'0')]
+	// overwriting: half of the runs store a second (third) value under a name that is already taken
+	if d.Bool() {
+		for i, n := 0, 1+d.N(3); i < n; i++ {
+			o := overSpec{Name: names[d.N(len(names))], Via: []string{"set", "t1", "t2"}[d.N(3)], Spec: draw(1)[0]}
+			if o.Name[0] == 'r' {
+				o.Via = "t2" // a result of T1 can only be replaced by a later task
+			}
+			dup := false
+			for _, p := range c.Over {
+				dup = dup || (p.Name == o.Name && p.Via == o.Via)
+			}
+			if !dup {
+				c.Over = append(c.Over, o)
+			}
 		}
+	}
+	kindOf := func(name string) string {
+		s, _ := c.specAt(name, 1)
 		t, _ := canon16(mkValue(s, 0))
 		return t
 	}
@@ -287,6 +340,11 @@ func (c *ValueCase) xml() string {
 	for i := range c.Results {
 		fmt.Fprintf(&b, "          <olive:field name=\"r%d\" type=\"string\"/>\n", i)
 	}
+	for _, o := range c.Over {
+		if o.Via == "t1" {
+			fmt.Fprintf(&b, "          <olive:field name=\"%s\" type=\"string\"/>\n", o.Name)
+		}
+	}
 	b.WriteString("        </olive:results>\n")
 	for i := range c.Objects {
 		fmt.Fprintf(&b, "        <olive:dataOutput name=\"o%d\" targetRef=\"o%d\"/>\n", i, i)
@@ -305,6 +363,19 @@ func (c *ValueCase) xml() string {
 		fmt.Fprintf(&b, "          <olive:property name=\"%s\" value=\"\" type=\"%s\" ref=\"%s\"/>\n", p.Name, p.Type, xmlEsc(p.Ref))
 	}
 	b.WriteString("        </olive:properties>\n")
+	t2res := false
+	for _, o := range c.Over {
+		if o.Via == "t2" {
+			if !t2res {
+				b.WriteString("        <olive:results>\n")
+				t2res = true
+			}
+			fmt.Fprintf(&b, "          <olive:field name=\"%s\" type=\"string\"/>\n", o.Name)
+		}
+	}
+	if t2res {
+		b.WriteString("        </olive:results>\n")
+	}
 	for i := range c.Objects {
 		fmt.Fprintf(&b, "        <olive:dataInput name=\"in%d\" targetRef=\"o%d\"/>\n", i, i)
 	}
@@ -392,6 +463,14 @@ func (c *ValueCase) Main() {
 					for k, s := range c.Objects {
 						objs[fmt.Sprintf("o%d", k)] = mkValue(s, i)
 					}
+					for _, o := range c.Over {
+						switch o.Via {
+						case "set":
+							proc.Locator().SetVariable(o.Name, mkValue(o.Spec, i))
+						case "t1":
+							res[o.Name] = mkValue(o.Spec, i)
+						}
+					}
 					env := c.env
 					env.fault("answer-with-generated-values")
 					t.Do(bpmn.DoWithResults(res), bpmn.DoWithObjects(objs))
@@ -411,7 +490,13 @@ func (c *ValueCase) Main() {
 						hs[k] = v
 					}
 					obs["headers"] = hs
-					t.Do()
+					res := map[string]any{}
+					for _, o := range c.Over {
+						if o.Via == "t2" {
+							res[o.Name] = mkValue(o.Spec, i)
+						}
+					}
+					t.Do(bpmn.DoWithResults(res))
 				}
 			case bpmn.ErrorTrace:
 				L.AddG(i, "t:error", fmt.Sprintf("%T", t.Error), fmt.Sprint(t.Error), 0)
@@ -546,11 +631,13 @@ func checkC16(cc Case, r *simrt.Result) *Outcome {
 		for k, s := range c.Vars {
 			n := fmt.Sprintf("v%d", k)
 			check("variable (right after the start)", n, s, atStart[n])
-			check("variable (at the end)", n, s, atEnd[n])
+			se, _ := c.specAt(n, 2)
+			check("variable (at the end)", n, se, atEnd[n])
 		}
-		for k, s := range c.Results {
+		for k := range c.Results {
 			n := fmt.Sprintf("r%d", k)
-			check("task result (variable at the end)", n, s, atEnd[n])
+			se, _ := c.specAt(n, 2)
+			check("task result (variable at the end)", n, se, atEnd[n])
 		}
 		for k, s := range c.Objects {
 			check("data object (as the next task's input)", fmt.Sprintf("in%d", k), s, objs[fmt.Sprintf("in%d", k)])
@@ -559,12 +646,7 @@ func checkC16(cc Case, r *simrt.Result) *Outcome {
 			if p.Ref != "" {
 				continue // references: no panic is all that is required here
 			}
-			var s valSpec
-			if p.Name[0] == 'v' {
-				s = c.Vars[int(p.Name[1]-'0')]
-			} else {
-				s = c.Results[int(p.Name[1]-'0')]
-			}
+			s, _ := c.specAt(p.Name, 1)
 			if wt, _ := canon16(mkValue(s, i)); wt == p.Type {
 				check("property (declared "+p.Type+") of the next task", p.Name, s, props[p.Name])
 			}
@@ -573,6 +655,13 @@ func checkC16(cc Case, r *simrt.Result) *Outcome {
 	o.Viol = vl.v
 	o.Nontrivial = r.Switches > 0
 	probe(o, "several-instances-at-once", c.Instances > 1 && c.Conc)
+	for _, ov := range c.Over {
+		prev, _ := c.specAt(ov.Name, map[string]int{"set": 0, "t1": 0, "t2": 1}[ov.Via])
+		pt, _ := canon16(mkValue(prev, 0))
+		nt, _ := canon16(mkValue(ov.Spec, 0))
+		probe(o, "name-written-again-with-another-kind", pt != nt)
+		probe(o, "name-written-again-with-the-same-kind", pt == nt)
+	}
 	kinds := map[string]bool{}
 	for _, l := range [][]valSpec{c.Vars, c.Results, c.Objects} {
 		for _, s := range l {
@@ -588,7 +677,7 @@ func checkC16(cc Case, r *simrt.Result) *Outcome {
 			break
 		}
 	}
-	o.Sample = map[string]any{"instances": c.Instances, "conc": c.Conc, "vars": c.Vars, "results": c.Results, "objects": c.Objects, "props": c.Props}
+	o.Sample = map[string]any{"over": c.Over, "instances": c.Instances, "conc": c.Conc, "vars": c.Vars, "results": c.Results, "objects": c.Objects, "props": c.Props}
 	return o
 }
 
